@@ -84,7 +84,7 @@ CHECKS = {
     "C09": dict(
         technique="paired bounded symbolic execution (affine costs, z3 LIA) of original vs. transformed input; clade-indexed set comparison; sampled fresh-process determinism",
         text="Original and transformed input (children reordered, everything renamed, outgroup added, run again, costs x k, one cost + symbolic "
-             "delta) run on the same symbolic cost vector in one exploration; z3 proves equality / k-multiple / monotonicity of the minima for "
+             "delta - every symbolic unit cost is raised in turn, with the fixed loss cost drawn from 1..3) run on the same symbolic cost vector in one exploration; z3 proves equality / k-multiple / monotonicity of the minima for "
              "every cost vector of every joint path and the 'all' results are equal as naming-independent sets. Hash-seed determinism is sampled "
              "in fresh interpreters on solver-produced cost vectors (stated).",
         design="5/C09", engine="forksym"),
